@@ -413,7 +413,7 @@ static void run_vector(long caseno) {
 
 int main(int argc, char **argv) {
     vf_init(argc, argv, "h_own");
-    vf_errno_entry = 1; vf_op_budget_ms = 10000;   /* stale errno on entry of every logged operation; a call that never returns is hang:operation */
+    vf_errno_entry = 1; vf_op_budget_ms = VF.thorough ? 120000 : 10000;   /* stale errno on entry of every logged operation; a call that never returns is hang:operation */
     if (strcmp(VF.prop, "C12")) { fprintf(stderr, "h_own: unsupported property %s\n", VF.prop); return 2; }
     vf_ledger_enable(true);
     long ncases = vf_arg_long("cases", 150 * 9);
